@@ -29,7 +29,7 @@ META = {
 
 def main(argv):
     c = vcheck.Check("C11", argv)
-    mirrorlib.mirror_check(c, ["C11", "C11Streams"], ["c11sm", "c11g", "c11cur", "c11nil"], "C11 view streams",
+    mirrorlib.mirror_check(c, ["C11", "C11Streams"], ["c11sm", "c11g", "c11cur", "c11nil", "c05"], "C11 view streams",
                            quick=(30, 40), thorough=(400, 50), extra=["-consumers", "-crashes"])
     # callers of Handle* running concurrently (overlapping messages, some giving up early): no model run - the Coq stream
     # monitors judge what the two consumers received and whether they end up current
